@@ -33,6 +33,7 @@ func init() {
 		}
 	}
 	r9Wrap("C19", r9Panics)
+	r9Wrap("C04", r9BigRX)
 	r9Wrap("C08", r9C08)
 	r9Wrap("C06", r9C06)
 	r9Wrap("C13", r9C06)
@@ -437,6 +438,27 @@ func r9RDT(c *ctx) {
 		for k := 1; k < len(w); k += 1 + k/6 {
 			runRDT(c, side, fs, k, "readmessage")
 			runRDT(c, side, fs, k, "reader")
+		}
+	}
+}
+
+// r9-C04: messages beyond 64 KiB through the ReadData family (one frame, and fragments that together cross the mark),
+// followed by a second message
+func r9BigRX(c *ctx) {
+	sizes := []int{65535, 65536, 65537, 70000}
+	if c.thor {
+		sizes = append(sizes, 131073, 200000)
+	}
+	for _, side := range []byte{1, 2} {
+		for i, n := range sizes {
+			whole := c.mkFrame(side, true, 2, 0)
+			whole.payload = patBytes(n, 7)
+			next := c.mkFrame(side, true, 1, 0)
+			next.payload = []byte("next")
+			runRX(c, "RX", side, []string{"data", "binary"}[i%2], []sframe{whole, next}, "-", "-", "eof")
+			a, b := c.mkFrame(side, false, 2, 0), c.mkFrame(side, true, 0, 0)
+			a.payload, b.payload = whole.payload[:n-40000], whole.payload[n-40000:]
+			runRX(c, "RX", side, "data", []sframe{a, b, next}, "-", "r4096", "eof")
 		}
 	}
 }
